@@ -158,6 +158,19 @@ def snap_backward_rounding(events, keys=("t", "lo")):
     return events
 
 
+def read_ndjson(path):
+    """lines of a harness output file; a harness that dies may leave a truncated last line, which is dropped (the caller
+    reports the death from the exit status / the missing results)"""
+    out = []
+    if os.path.exists(path):
+        for l in open(path, errors="replace"):
+            try:
+                out.append(json.loads(l))
+            except ValueError:
+                break
+    return out
+
+
 def tla_strings(out, prefix):
     """Lines printed by PrintT(<string>) come out as a quoted TLA+ string; return the payloads
     that start with prefix."""
